@@ -414,7 +414,11 @@ PROPS["C14"] = dict(
 
 PROPS["C16"] = dict(
     gens=[("misuse", gen.gen_C16, 1.0), ("variable-order-mismatch", gen.gen_C16_order, 0.4)], quick=50, thorough=500,
-    level_text="The documented precondition checks of apply (same domain; set/relation shape per operation), the "
+    level_text="Proved (PrecheckP): the decision table of binary apply accepts a call iff the three forests are over "
+               "one domain, their set/relation shapes fit the operation and they are in the same variable order, "
+               "and otherwise names the first violated precondition (DOMAIN_MISMATCH, TYPE_MISMATCH, "
+               "INVALID_OPERATION); the scalar cases (zero divisor, terminal window) are proved with C05/C19. "
+               "The documented precondition checks of apply (that table, run by the extracted model on every call), the "
                "terminal window (generated codec), division by zero reached by the recursion, exhausted iterators "
                "and detached edges are predicted by the model and must be raised by the library as the documented "
                "error code -- never a crash; after every error all previously obtained edges are re-shown "
